@@ -129,13 +129,13 @@ def classify_first(replies, ser):
     return "other", False
 
 
-def run_scenarios(scens, servertype, timeout, seed):
+def run_scenarios(scens, servertype, timeout, seed, validator_install="class"):
     rng = random.Random(seed)
     traces = []
 
     def main():
         sc = S.CUR
-        lab = L.Lab(servertype=servertype, commtimeout=timeout)
+        lab = L.Lab(servertype=servertype, commtimeout=timeout, validator_install=validator_install)
         lab.daemon.register(make_target(lab)(), "target")
         for scen in scens:
             ser = scen["ser"]
@@ -217,6 +217,10 @@ def run(ctx):
             js = jobs[st] if timeout == 0.0 else jobs[st][::5]
             traces += run_scenarios(js, st, timeout, ctx.seed)
             metas += [dict(j, timeout=timeout) for j in js]
+        # the validator installed on the daemon object after construction (the class keeps the default that accepts everybody)
+        js = [j for j in jobs[st] if j["first"].startswith("connect")][::ctx.pick(3, 1)]
+        traces += run_scenarios(js, st, 0.0, ctx.seed, validator_install="instance")
+        metas += [dict(j, timeout=0.0, install="instance") for j in js]
     for m in metas:
         ctx.count(json.dumps(m, sort_keys=True) if not m["accept"] else None)
     for i in (0, len(traces) // 2, len(traces) - 1):
@@ -229,7 +233,7 @@ def run(ctx):
         if tr[-1].get("hang"):
             v08 = v08 or "C08.Hang"
         if v08:
-            ctx.violation("%s [first=%s validator=%s server=%s]" % (v08, m["first"], m["validator"] if m["first"].startswith("connect") else "-", m["server"]),
+            ctx.violation("%s [first=%s validator=%s server=%s]" % (v08, m["first"], m["validator"] if m["first"].startswith("connect") else "-", m["server"] + (" instance-validator" if m.get("install") else "")),
                           {"scenario": m, "trace": tr})
     if not ctx.violations and (n_exec_ok < 20 or n_pipelined_refused < 100):
         raise util.MachineryError("vacuity: accepted-with-exec=%d refused-with-pipeline=%d" % (n_exec_ok, n_pipelined_refused))
@@ -243,7 +247,7 @@ def replay(ctx, path):
     bad = 0
     for case in rep["cases"]:
         m = case["scenario"]
-        tr = run_scenarios([m], m["server"], m.get("timeout", 0.0), ctx.seed)[0]
+        tr = run_scenarios([m], m["server"], m.get("timeout", 0.0), ctx.seed, validator_install=m.get("install", "class"))[0]
         v, _ = tlc.validate(ctx, "Trace_Daemon", [tr], cfg="Trace_Daemon.cfg")
         print("replay:", {k: m[k] for k in ("first", "validator", "pipe", "ser", "server")}, "->", v[0].split("|")[0] or "accepted")
         for e in tr:
